@@ -9,7 +9,7 @@ CONSTANT MaxDepth, GenUnits
 
 VARIABLE hist, start
 
-GenInit == Init /\ hist = <<>> /\ start = [litplus |-> litplus, state |-> state, utf8 |-> utf8]
+GenInit == Init /\ hist = <<>> /\ start = [litplus |-> litplus, state |-> state, utf8 |-> utf8, sasl |-> sasl]
 
 GenNext ==
   /\ Len(hist) < MaxDepth
